@@ -255,7 +255,9 @@ struct Shape {
     records: bool,
 }
 
-const LEAN: Shape = Shape { edns: false, tsig: false, records: false };
+fn lowercase_unchecked(name: Box<Name>) -> Box<LowercaseName> {
+    unsafe { Box::from_raw(Box::into_raw(name) as *mut LowercaseName) }
+}
 
 fn name_of(wire: &[u8]) -> Box<Name> {
     Name::try_from_uncompressed_all(wire).unwrap()
@@ -263,31 +265,64 @@ fn name_of(wire: &[u8]) -> Box<Name> {
 
 /// What `Server::handle_message` + `handle_message_with_context` leave in a
 /// context before `process_response` for a request `req` whose question
-/// parses: question read (and echoed, followed by three RRs, if
-/// `shape.records`), OPT / TSIG reserved as `shape` says, RCODE `rcode`
-/// (an extended RCODE above 15 needs `shape.edns`), wildcard source of
-/// synthesis `sos` (uncompressed wire form) if any.
-fn mk_context<'b>(
+/// parses: question read, OPT reserved if `edns`, RCODE `rcode` (an extended
+/// RCODE above 15 needs `edns`), wildcard source of synthesis `sos`
+/// (uncompressed wire form) if any.  The response is header-only (shape
+/// `Shape { edns, tsig: false, records: false }`): this builder deliberately
+/// does not reference the record-writing half of `Writer`, which would
+/// otherwise be compiled into every harness (several CPU minutes of CBMC
+/// preprocessing each, measured).
+fn mk_context_lean<'b>(
     req: &'b [u8],
     out: &'b mut [u8],
     info: ReceivedInfo,
     rcode: u16,
-    shape: Shape,
+    edns: bool,
     sos: Option<&[u8]>,
 ) -> Context<'static, 'b, ()> {
     let reader = Reader::try_from(req).unwrap();
     let writer = Writer::new(out, 512).unwrap();
     let mut ctx = Context::new(&UNIT, reader, info, writer);
     let question = ctx.received.read_question().unwrap();
-    if shape.records {
-        ctx.response.add_question(&question).unwrap();
+    if edns {
+        ctx.response.set_edns(1232).unwrap();
     }
+    ctx.question = Some(question);
+    if let Some(w) = sos {
+        ctx.source_of_synthesis = Some(Cow::Owned(name_of(w)));
+    }
+    if rcode < 16 {
+        ctx.response.set_rcode(Rcode::try_from(rcode as u8).unwrap());
+    } else {
+        ctx.response.set_extended_rcode(ExtendedRcode::from(rcode)).unwrap();
+    }
+    ctx
+}
+
+/// As `mk_context_lean`, with the question echoed, one RR in each of the
+/// answer, authority and additional sections, and OPT / TSIG pseudo-RRs
+/// reserved as `shape` says.
+fn mk_context_rich<'b>(
+    req: &'b [u8],
+    out: &'b mut [u8],
+    info: ReceivedInfo,
+    rcode: u8,
+    shape: Shape,
+) -> Context<'static, 'b, ()> {
+    let reader = Reader::try_from(req).unwrap();
+    let writer = Writer::new(out, 512).unwrap();
+    let mut ctx = Context::new(&UNIT, reader, info, writer);
+    let question = ctx.received.read_question().unwrap();
+    ctx.response.add_question(&question).unwrap();
     if shape.edns {
         ctx.response.set_edns(1232).unwrap();
     }
     if shape.tsig {
-        let key_name: Box<LowercaseName> = name_of(&[1, b'k', 0]).into();
-        let algorithm: Box<LowercaseName> = name_of(&[1, b'h', 0]).into();
+        // k. and h. are already lower case; the cast is the one
+        // `From<Box<Name>> for Box<LowercaseName>` performs after lowercasing
+        // in place (that loop over a heap name costs CBMC > 10 M variables)
+        let key_name: Box<LowercaseName> = lowercase_unchecked(name_of(&[1, b'k', 0]));
+        let algorithm: Box<LowercaseName> = lowercase_unchecked(name_of(&[1, b'h', 0]));
         let zero = TimeSigned::try_from_unix_time(0).unwrap();
         ctx.response
             .set_tsig(
@@ -303,25 +338,18 @@ fn mk_context<'b>(
             )
             .unwrap();
     }
-    if shape.records {
-        let rdata: &Rdata = (&[192u8, 0, 2, 1]).try_into().unwrap();
-        let ttl = Ttl::from(3600);
-        let owner = HintedName::new(Hint::Qname, &question.qname);
-        ctx.response.add_answer_rr(owner, Type::A, Class::IN, ttl, rdata, None).unwrap();
-        let owner = HintedName::new(Hint::Qname, &question.qname);
-        ctx.response.add_authority_rr(owner, Type::A, Class::IN, ttl, rdata, None).unwrap();
-        let owner = HintedName::new(Hint::Qname, &question.qname);
-        ctx.response.add_additional_rr(owner, Type::A, Class::IN, ttl, rdata, None).unwrap();
-    }
+    let rdata: &Rdata = (&[192u8, 0, 2, 1]).try_into().unwrap();
+    let ttl = Ttl::from(3600);
+    // owner: the root name (no compression work; what the records are is
+    // irrelevant to the limiter)
+    let owner = HintedName::new(Hint::None, Name::root());
+    ctx.response.add_answer_rr(owner, Type::A, Class::IN, ttl, rdata, None).unwrap();
+    let owner = HintedName::new(Hint::None, Name::root());
+    ctx.response.add_authority_rr(owner, Type::A, Class::IN, ttl, rdata, None).unwrap();
+    let owner = HintedName::new(Hint::None, Name::root());
+    ctx.response.add_additional_rr(owner, Type::A, Class::IN, ttl, rdata, None).unwrap();
     ctx.question = Some(question);
-    if let Some(w) = sos {
-        ctx.source_of_synthesis = Some(Cow::Owned(name_of(w)));
-    }
-    if rcode < 16 {
-        ctx.response.set_rcode(Rcode::try_from(rcode as u8).unwrap());
-    } else {
-        ctx.response.set_extended_rcode(ExtendedRcode::from(rcode)).unwrap();
-    }
+    ctx.response.set_rcode(Rcode::try_from(rcode).unwrap());
     ctx
 }
 
@@ -435,6 +463,8 @@ fn c26_two_steps(rates: [u32; 3], window: u32) {
     // any RCODE (hence any of the three categories)
     let rcode: u8 = kani::any();
     kani::assume(rcode < 16);
+    let edns: bool = kani::any();
+    let shape = Shape { edns, tsig: false, records: false };
     let category = ref_category(rcode);
     let rate = match category {
         Category::NoError => rates[0],
@@ -450,7 +480,7 @@ fn c26_two_steps(rates: [u32; 3], window: u32) {
     let mut origin = t0 - Duration::from_secs(ORIGIN_BACK);
     let random_state = fixed_random_state();
     let mut out1 = [0u8; 64];
-    let mut ctx1 = mk_context(&REQ_A, &mut out1, info, rcode as u16, LEAN, None);
+    let mut ctx1 = mk_context_lean(&REQ_A, &mut out1, info, rcode as u16, edns, None);
     let stream_key = Key {
         dest: 0x7f00_0000,
         ipv6: false,
@@ -498,11 +528,11 @@ fn c26_two_steps(rates: [u32; 3], window: u32) {
     }
     let let_out1 = ref_step(&mut reference, now1, rate, limit);
     rrl.process_response(&mut ctx1);
-    let o1 = outcome(&ctx1, LEAN, true, true);
+    let o1 = outcome(&ctx1, shape, true, true);
     c26_compare(&rrl, origin, &reference, let_out1, o1, slip, limit);
     kani::cover!(ours && count0 as u128 == limit && o1 == Outcome::Sent, "step 1: full bucket, refill makes room, sent");
     kani::cover!(ours && o1 == Outcome::Dropped && s0 == 0, "step 1: full bucket, less than a second since refill, dropped");
-    kani::cover!(ours && o1 == Outcome::Slipped, "step 1: slipped");
+    kani::cover!(ours && o1 == Outcome::Slipped && edns, "step 1: slipped, response with OPT");
     kani::cover!(!ours && o1 == Outcome::Sent, "step 1: bucket taken over from another stream");
     kani::cover!(ours && s0 > u32::MAX as u64, "step 1: idle for more than 2^32 s");
     kani::cover!(ours && count0 > 0 && rate * (s0 as u128) > u32::MAX as u128, "step 1: rate x idle seconds exceeds u32");
@@ -513,12 +543,12 @@ fn c26_two_steps(rates: [u32; 3], window: u32) {
     let rcode2: u8 = kani::any();
     kani::assume(rcode2 < 16 && ref_category(rcode2) == category);
     let mut out2 = [0u8; 64];
-    let mut ctx2 = mk_context(&REQ_A, &mut out2, info, rcode2 as u16, LEAN, None);
+    let mut ctx2 = mk_context_lean(&REQ_A, &mut out2, info, rcode2 as u16, edns, None);
     let now2 = t_of(origin, Instant::now());
     let before2 = reference.count;
     let let_out2 = ref_step(&mut reference, now2, rate, limit);
     rrl.process_response(&mut ctx2);
-    let o2 = outcome(&ctx2, LEAN, true, true);
+    let o2 = outcome(&ctx2, shape, true, true);
     c26_compare(&rrl, origin, &reference, let_out2, o2, slip, limit);
     kani::cover!(o1 == Outcome::Sent && o2 == Outcome::Dropped && s1 == 0, "step 2: limit reached by step 1, dropped");
     kani::cover!(o1 == Outcome::Dropped && o2 == Outcome::Sent, "step 2: sent after refill");
@@ -562,7 +592,7 @@ fn any_in(lo: u32, hi: u32) -> u32 {
 
 // @harness props=C26 tier=quick mem=6 t=1500 fn="Rrl::process_response,Rrl::rate_and_limit_for_category,RrlParams::new,RrlParams::set_slip,server::rrl::subject_to_rrl,<Category as From<ExtendedRcode>>::from,Writer::set_tc"
 //   bound="two consecutive UDP QUERY responses of one stream (127.0.0.1, QNAME a.); the three rates 1..=4 each, window 1..=1024, any slip (usize; the random choice for slip>1 is a symbolic bool), any RCODE 0..=15, second response any RCODE of the same category; bucket: any key (same stream or not), any count <= rate*window when it is the stream's, last refill 0..=2^35 s + any nanos before the first response; second response 0..=2^35 s + any nanos later; clock start 0..=2^36 s; table size 1; unwind 4"
-//   stubs="S2,S4" sym="rates:[u32;3], window, slip:usize, rcode, rcode2, bucket key/count, (s0,n0), (s1,n1), clock"
+//   kani="--no-assertion-reach-checks" stubs="S2,S4" sym="rates:[u32;3], window, slip:usize, rcode, rcode2, bucket key/count, (s0,n0), (s1,n1), clock"
 #[kani::proof]
 #[kani::unwind(4)]
 #[kani::stub(std::time::Instant::now, clock_now)]
@@ -573,7 +603,7 @@ fn c26_bucket_two_steps_r4() {
 
 // @harness props=C26 tier=thorough mem=8 t=3000 fn="Rrl::process_response,Rrl::rate_and_limit_for_category,RrlParams::new"
 //   bound="as c26_bucket_two_steps_r4 with the three rates 1..=16 each, window 1..=1024"
-//   stubs="S2,S4" sym="rates:[u32;3], window, slip:usize, rcode, rcode2, bucket key/count, (s0,n0), (s1,n1), clock"
+//   kani="--no-assertion-reach-checks" stubs="S2,S4" sym="rates:[u32;3], window, slip:usize, rcode, rcode2, bucket key/count, (s0,n0), (s1,n1), clock"
 #[kani::proof]
 #[kani::unwind(4)]
 #[kani::stub(std::time::Instant::now, clock_now)]
@@ -584,7 +614,7 @@ fn c26_bucket_two_steps_r16() {
 
 // @harness props=C26 tier=quick mem=6 t=1500 fn="Rrl::process_response,Rrl::rate_and_limit_for_category,RrlParams::new"
 //   bound="as c26_bucket_two_steps_r4 but with (rates, window) chosen symbolically among 6 concrete extreme configurations whose limit reaches up to u32::MAX: (1,1,1;1) (1,1,1;u32::MAX) (u32::MAX,65535,1000;1) (65535,65537,3;65535) (1000,1024,1;4194303) (65537,1,65535;65535)"
-//   stubs="S2,S4" sym="configuration index, slip:usize, rcode, rcode2, bucket key/count, (s0,n0), (s1,n1), clock"
+//   kani="--no-assertion-reach-checks" stubs="S2,S4" sym="configuration index, slip:usize, rcode, rcode2, bucket key/count, (s0,n0), (s1,n1), clock"
 #[kani::proof]
 #[kani::unwind(4)]
 #[kani::stub(std::time::Instant::now, clock_now)]
@@ -606,26 +636,22 @@ fn c26_bucket_two_steps_extremes() {
 // C26: what a limited response looks like (records, OPT, TSIG)
 // --------------------------------------------------------------------------
 
-// @harness props=C26 tier=quick mem=4 t=900 fn="Rrl::process_response,Writer::clear_rrs,Writer::set_tc,server::rrl::subject_to_rrl"
-//   bound="one UDP QUERY response (a. IN A) with the question echoed and one A RR in each of answer/authority/additional, OPT present or not, TSIG present or not, any RCODE 0..=15, arriving at a full bucket (rate 1, window 1, count 1) 0 s + any nanos after its refill; any slip (usize); 128-octet response buffer; unwind 5"
-//   stubs="S2,S4" sym="slip:usize, rcode, edns, tsig, nanos"
-#[kani::proof]
-#[kani::unwind(5)]
-#[kani::stub(std::time::Instant::now, clock_now)]
-#[kani::stub(Rrl::should_slip, should_slip_model)]
-fn c26_limited_response_shape() {
+/// `edns`/`tsig` are concrete per harness: with a symbolic layout the
+/// writer's cursor becomes symbolic and CBMC's array encoding of the response
+/// buffer exceeds 15 GB (measured).
+fn c26_limited_response_shape(edns: bool, tsig: bool) {
     let slip: usize = kani::any();
     let mut params = RrlParams::new(1, 1, 1, 1).unwrap();
     params.set_slip(slip);
     let rcode: u8 = kani::any();
     kani::assume(rcode < 16);
-    let shape = Shape { edns: kani::any(), tsig: kani::any(), records: true };
+    let shape = Shape { edns, tsig, records: true };
     let info = ReceivedInfo::new(IpAddr::V4(Ipv4Addr::new(127, 0, 0, 1)), Transport::Udp);
     clock_init();
     let t0 = Instant::now();
     let random_state = fixed_random_state();
     let mut out = [0u8; 128];
-    let mut ctx = mk_context(&REQ_A, &mut out, info, rcode as u16, shape, None);
+    let mut ctx = mk_context_rich(&REQ_A, &mut out, info, rcode, shape);
     let category = ref_category(rcode);
     let key = Key {
         dest: 0x7f00_0000,
@@ -654,11 +680,56 @@ fn c26_limited_response_shape() {
     } else {
         assert!(o == Outcome::Dropped || o == Outcome::Slipped, "[C26] a limited response is dropped or slipped");
     }
-    kani::cover!(o == Outcome::Slipped && shape.edns && shape.tsig, "slipped with OPT and TSIG");
-    kani::cover!(o == Outcome::Slipped && !shape.edns && !shape.tsig, "slipped without pseudo-RRs");
+    kani::cover!(o == Outcome::Slipped && slip == 1, "slipped with slip 1");
+    kani::cover!(o == Outcome::Slipped && slip > 1, "slipped with slip > 1");
     kani::cover!(o == Outcome::Dropped && slip > 1, "dropped with slip > 1");
+    kani::cover!(o == Outcome::Dropped && slip == 0 && rcode == 0, "NOERROR dropped with slip 0");
     core::mem::forget(ctx);
     core::mem::forget(rrl);
+}
+
+// @harness props=C26 tier=quick mem=4 t=900 fn="Rrl::process_response,Writer::clear_rrs,Writer::set_tc,server::rrl::subject_to_rrl"
+//   bound="one UDP QUERY response (a. IN A) with the question echoed and one A RR in each of answer/authority/additional, no OPT, no TSIG, any RCODE 0..=15, arriving at a full bucket (rate 1, window 1, count 1) 0 s + any nanos after its refill; any slip (usize); 128-octet response buffer; unwind 3"
+//   kani="--no-assertion-reach-checks" stubs="S2,S4" sym="slip:usize, rcode, nanos, clock"
+#[kani::proof]
+#[kani::unwind(3)]
+#[kani::stub(std::time::Instant::now, clock_now)]
+#[kani::stub(Rrl::should_slip, should_slip_model)]
+fn c26_limited_shape_plain() {
+    c26_limited_response_shape(false, false);
+}
+
+// @harness props=C26 tier=quick mem=4 t=900 fn="Rrl::process_response,Writer::clear_rrs,Writer::set_tc"
+//   bound="as c26_limited_shape_plain with an OPT and a TSIG pseudo-RR reserved in the response"
+//   kani="--no-assertion-reach-checks" stubs="S2,S4" sym="slip:usize, rcode, nanos, clock"
+#[kani::proof]
+#[kani::unwind(3)]
+#[kani::stub(std::time::Instant::now, clock_now)]
+#[kani::stub(Rrl::should_slip, should_slip_model)]
+fn c26_limited_shape_opt_tsig() {
+    c26_limited_response_shape(true, true);
+}
+
+// @harness props=C26 tier=thorough mem=4 t=900 fn="Rrl::process_response,Writer::clear_rrs,Writer::set_tc"
+//   bound="as c26_limited_shape_plain with an OPT pseudo-RR reserved in the response"
+//   kani="--no-assertion-reach-checks" stubs="S2,S4" sym="slip:usize, rcode, nanos, clock"
+#[kani::proof]
+#[kani::unwind(3)]
+#[kani::stub(std::time::Instant::now, clock_now)]
+#[kani::stub(Rrl::should_slip, should_slip_model)]
+fn c26_limited_shape_opt() {
+    c26_limited_response_shape(true, false);
+}
+
+// @harness props=C26 tier=thorough mem=4 t=900 fn="Rrl::process_response,Writer::clear_rrs,Writer::set_tc"
+//   bound="as c26_limited_shape_plain with a TSIG pseudo-RR reserved in the response"
+//   kani="--no-assertion-reach-checks" stubs="S2,S4" sym="slip:usize, rcode, nanos, clock"
+#[kani::proof]
+#[kani::unwind(3)]
+#[kani::stub(std::time::Instant::now, clock_now)]
+#[kani::stub(Rrl::should_slip, should_slip_model)]
+fn c26_limited_shape_tsig() {
+    c26_limited_response_shape(false, true);
 }
 
 // --------------------------------------------------------------------------
@@ -885,7 +956,7 @@ fn c27_pair(qname1: [u8; 5], sos1: Option<[u8; 5]>, qname2: [u8; 5], sos2: Optio
     let req1 = a.request(&qname1);
     let mut out1 = [0u8; 64];
     let shape1 = Shape { edns: a.edns, tsig: false, records: false };
-    let mut ctx1 = mk_context(&req1, &mut out1, a.info(), a.rcode, shape1, sos1.as_ref().map(|s| &s[..]));
+    let mut ctx1 = mk_context_lean(&req1, &mut out1, a.info(), a.rcode, a.edns, sos1.as_ref().map(|s| &s[..]));
     ctx1.send_response = a.send;
     rrl.process_response(&mut ctx1);
     let o1 = outcome(&ctx1, shape1, a.send, false);
@@ -902,7 +973,7 @@ fn c27_pair(qname1: [u8; 5], sos1: Option<[u8; 5]>, qname2: [u8; 5], sos2: Optio
     let req2 = b.request(&qname2);
     let mut out2 = [0u8; 64];
     let shape2 = Shape { edns: b.edns, tsig: false, records: false };
-    let mut ctx2 = mk_context(&req2, &mut out2, b.info(), b.rcode, shape2, sos2.as_ref().map(|s| &s[..]));
+    let mut ctx2 = mk_context_lean(&req2, &mut out2, b.info(), b.rcode, b.edns, sos2.as_ref().map(|s| &s[..]));
     ctx2.send_response = b.send;
     rrl.process_response(&mut ctx2);
     let o2 = outcome(&ctx2, shape2, b.send, false);
@@ -954,7 +1025,7 @@ const N_STAR_A_UPPER: [u8; 5] = [1, b'*', 1, b'A', 0];
 
 // @harness props=C27 tier=quick mem=8 t=2400 fn="Rrl::process_response,Rrl::ip_to_dest_u64,server::rrl::subject_to_rrl,<Category as From<ExtendedRcode>>::from,<Key as PartialEq>::eq,ReceivedInfo::new,RrlParams::set_ipv4_prefix_len,RrlParams::set_ipv6_prefix_len,<Name as Hash>::hash"
 //   bound="two responses < 1 s apart, fresh table of size 1, rates 1 window 1; QNAMEs x.a. / x.a. (identical), no wildcard; per response: any IPv4 or any IPv6 source (all 2^32 / 2^128, incl. IPv4-mapped), UDP or TCP, any opcode and header flags, any RCODE 0..=15 or with OPT any extended RCODE 0..=4095, send_response already false or not; any prefix lengths 0..=32 / 0..=64, any slip; unwind 12"
-//   stubs="S2,S4" sym="2 x (family, 16 octets, transport, flags, id, edns, rcode, send), v4_len, v6_len, slip, gap nanos, clock"
+//   kani="--no-assertion-reach-checks" stubs="S2,S4" sym="2 x (family, 16 octets, transport, flags, id, edns, rcode, send), v4_len, v6_len, slip, gap nanos, clock"
 #[kani::proof]
 #[kani::unwind(12)]
 #[kani::stub(std::time::Instant::now, clock_now)]
@@ -965,7 +1036,7 @@ fn c27_pair_same_qname() {
 
 // @harness props=C27 tier=quick mem=8 t=2400 fn="Rrl::process_response,<Name as Hash>::hash,<Label as Hash>::hash"
 //   bound="as c27_pair_same_qname with QNAMEs x.a. / X.A. (same name, different case)"
-//   stubs="S2,S4" sym="as c27_pair_same_qname"
+//   kani="--no-assertion-reach-checks" stubs="S2,S4" sym="as c27_pair_same_qname"
 #[kani::proof]
 #[kani::unwind(12)]
 #[kani::stub(std::time::Instant::now, clock_now)]
@@ -976,7 +1047,7 @@ fn c27_pair_case_variant_qname() {
 
 // @harness props=C27 tier=quick mem=8 t=2400 fn="Rrl::process_response,<Name as Hash>::hash"
 //   bound="as c27_pair_same_qname with QNAMEs x.a. / y.a. (different first label)"
-//   stubs="S2,S4" sym="as c27_pair_same_qname"
+//   kani="--no-assertion-reach-checks" stubs="S2,S4" sym="as c27_pair_same_qname"
 #[kani::proof]
 #[kani::unwind(12)]
 #[kani::stub(std::time::Instant::now, clock_now)]
@@ -987,7 +1058,7 @@ fn c27_pair_different_qname() {
 
 // @harness props=C27 tier=thorough mem=8 t=2400 fn="Rrl::process_response,<Name as Hash>::hash"
 //   bound="as c27_pair_same_qname with QNAMEs x.a. / x.b. (different last label)"
-//   stubs="S2,S4" sym="as c27_pair_same_qname"
+//   kani="--no-assertion-reach-checks" stubs="S2,S4" sym="as c27_pair_same_qname"
 #[kani::proof]
 #[kani::unwind(12)]
 #[kani::stub(std::time::Instant::now, clock_now)]
@@ -998,7 +1069,7 @@ fn c27_pair_different_parent_qname() {
 
 // @harness props=C27 tier=quick mem=8 t=2400 fn="Rrl::process_response,<Name as Hash>::hash"
 //   bound="as c27_pair_same_qname with QNAMEs x.a. / y.a., both answered from the wildcard *.a. (second source of synthesis spelled *.A.)"
-//   stubs="S2,S4" sym="as c27_pair_same_qname"
+//   kani="--no-assertion-reach-checks" stubs="S2,S4" sym="as c27_pair_same_qname"
 #[kani::proof]
 #[kani::unwind(12)]
 #[kani::stub(std::time::Instant::now, clock_now)]
@@ -1009,7 +1080,7 @@ fn c27_pair_same_wildcard() {
 
 // @harness props=C27 tier=thorough mem=8 t=2400 fn="Rrl::process_response,<Name as Hash>::hash"
 //   bound="as c27_pair_same_qname with QNAME x.a. twice, the first answered from the wildcard *.a., the second not synthesized"
-//   stubs="S2,S4" sym="as c27_pair_same_qname"
+//   kani="--no-assertion-reach-checks" stubs="S2,S4" sym="as c27_pair_same_qname"
 #[kani::proof]
 #[kani::unwind(12)]
 #[kani::stub(std::time::Instant::now, clock_now)]
@@ -1020,7 +1091,7 @@ fn c27_pair_wildcard_vs_plain() {
 
 // @harness props=C27 tier=thorough mem=8 t=2400 fn="Rrl::process_response,<Name as Hash>::hash"
 //   bound="as c27_pair_same_qname with QNAME *.a. asked literally, then y.a. answered from the wildcard *.a."
-//   stubs="S2,S4" sym="as c27_pair_same_qname"
+//   kani="--no-assertion-reach-checks" stubs="S2,S4" sym="as c27_pair_same_qname"
 #[kani::proof]
 #[kani::unwind(12)]
 #[kani::stub(std::time::Instant::now, clock_now)]
